@@ -274,3 +274,29 @@ func C01_StringLits() {
 		verif.Reach("accepted")
 	}
 }
+
+// C01_FloatText: CONCRETE INSTANCES - the decimal rendering of floats (print
+// and the number-to-string coercion on the right of '+'), which the symbolic
+// cells treat as an opaque function of the number.
+func C01_FloatText() {
+	lits := []string{
+		"1000000.0", "1e6", "999999.5", "1e-4", "0.00001", "1e-5", "1e20", "1e21", "1e22", "123456789.125",
+		"0.1", "2.5e-10", "1.7976931348623157e308", "4.9e-324", "100000.0", "1e7", "0.000123", "12345678.0",
+	}
+	l := lits[verif.Choice("lit", len(lits))]
+	var src string
+	switch verif.Choice("use", 4) {
+	case 0:
+		src = "print " + l + "\n"
+	case 1:
+		src = "print \"v=\" + " + l + "\n"
+	case 2:
+		src = "print \"v=\" + (" + l + " * 2)\nprint " + l + " / 3\n"
+	default:
+		src = "def b {\n s = \"\" + " + l + "\n n = - " + l + "\n t = \"x\" + n\n}\n"
+	}
+	r := runBoth(src, nil)
+	verif.Observe("out", r.Real.Out)
+	r.assertAgree("float text")
+	verif.Reach("compared")
+}
